@@ -234,8 +234,59 @@ func runFOUNDCHECK(c *Ctx) {
 		}
 		return false
 	}
+	// keyEqualsAt(node, i, key) (bool, error): a helper whose answer is "the comparator came out 0"
+	equalHelper := func(v ssa.Value) (trueMeansEqual bool, ok bool) {
+		var call *ssa.Call
+		switch x := v.(type) {
+		case *ssa.Call:
+			call = x
+		case *ssa.Extract:
+			if x.Index == 0 {
+				call, _ = x.Tuple.(*ssa.Call)
+			}
+		}
+		if call == nil {
+			return false, false
+		}
+		h := ir.Callee(call.Call)
+		if h == nil || h.Blocks == nil || !isOwn(P, h) {
+			return false, false
+		}
+		ei := ir.ErrorResultIndex(h.Signature)
+		n := 0
+		for _, r := range ir.Returns(h) {
+			if ei >= 0 && ei < len(r.Results) && !ir.IsNilConst(r.Results[ei]) {
+				continue
+			}
+			bin, isBin := ir.ResolveCell(r.Results[0]).(*ssa.BinOp)
+			if !isBin || !isCmp(bin.X) {
+				return false, false
+			}
+			if k, isK := ir.ConstInt(bin.Y); !isK || k != 0 {
+				return false, false
+			}
+			switch bin.Op {
+			case token.EQL:
+				if n > 0 && !trueMeansEqual {
+					return false, false
+				}
+				trueMeansEqual = true
+			case token.NEQ:
+				if n > 0 && trueMeansEqual {
+					return false, false
+				}
+			default:
+				return false, false
+			}
+			n++
+		}
+		return trueMeansEqual, n > 0
+	}
 	equalFact := func(b *ssa.BasicBlock) bool {
 		for _, f := range ir.FactsAt(b) {
+			if tme, ok := equalHelper(f.Cond); ok && f.Truth == tme {
+				return true
+			}
 			bin, ok := f.Cond.(*ssa.BinOp)
 			if !ok {
 				continue
@@ -324,7 +375,28 @@ func runFOUNDCHECK(c *Ctx) {
 							return false
 						}
 						sc := ir.Callee(call.Call)
-						return sc != nil && sc.String() == "(reflect.Value).Set"
+						if sc != nil && sc.String() == "(reflect.Value).Set" {
+							return true
+						}
+						// a helper that runs Set on every path (assignValue(dest, v))
+						if sc != nil && sc.Blocks != nil && isOwn(P, sc) {
+							all := true
+							rets := ir.Returns(sc)
+							for _, hr := range rets {
+								if !ir.FlowFactGen(hr, func(ir.Fact) bool { return false }, func(j ssa.Instruction) bool {
+									c2, ok := j.(*ssa.Call)
+									if !ok {
+										return false
+									}
+									s2 := ir.Callee(c2.Call)
+									return s2 != nil && s2.String() == "(reflect.Value).Set"
+								}, func(ssa.Instruction) bool { return false }) {
+									all = false
+								}
+							}
+							return all && len(rets) > 0
+						}
+						return false
 					}, func(ssa.Instruction) bool { return false })
 					if setDone {
 						c.OK(P.InstrPos(r), "'found' result of Get: destination", "the destination is set (reflect.Value.Set) on every path with a destination", false)
